@@ -1339,6 +1339,9 @@ func UnserializeSchema(data any) (*SchemaSchema, error) {
 	if err := linkUnserialized(result.applyNamespace); err != nil {
 		return nil, err
 	}
+	if err := result.validateReferences(); err != nil {
+		return nil, err
+	}
 	return result, nil
 }
 
